@@ -109,6 +109,16 @@ theorem shr_spec {n} (h64 : n < 2 ^ 64) (x y : BitVec n) :
     Const.shr (ofBV x) (ofBV y) = .ok (ofBV (x >>> y.toNat)) := by
   rw [shr_ofBV x y h64, spec_shr_eq]
 
+/-- saturation spelled out: once the amount reaches the width - including amounts of 2^64 and more at widths
+    above 64 bits (seeded change C04-m7 read only the low 64-bit digit) - the logical shifts give zero -/
+theorem shr_saturates {n} (h64 : n < 2 ^ 64) (x y : BitVec n) (h : n ≤ y.toNat) :
+    Const.shr (ofBV x) (ofBV y) = .ok (ofBV (0 : BitVec n)) := by
+  rw [shr_spec h64, BitVec.ushiftRight_eq_zero h]; rfl
+
+theorem shl_saturates {n} (h64 : n < 2 ^ 64) (x y : BitVec n) (h : n ≤ y.toNat) :
+    Const.shl (ofBV x) (ofBV y) = .ok (ofBV (0 : BitVec n)) := by
+  rw [shl_spec h64, BitVec.shiftLeft_eq_zero h]; rfl
+
 theorem ashr_spec {n} (hn : 1 ≤ n) (h64 : n < 2 ^ 64) (x y : BitVec n) :
     Const.ashr (ofBV x) (ofBV y) = .ok (ofBV (x.sshiftRight y.toNat)) := by
   rw [ashr_ofBV x y hn h64, spec_ashr_eq]
